@@ -32,6 +32,7 @@ static void loadConfig(const json::Object &o) {
   if (auto v = o.getInteger("concrMax")) CFG.concrMax = (int)*v;
   if (auto v = o.getInteger("widenAfter")) CFG.widenAfter = (int)*v;
   if (auto v = o.getBoolean("dedupe")) CFG.dedupe = *v;
+  if (auto v = o.getBoolean("trackInit")) CFG.trackInit = *v;
   if (auto v = o.getInteger("frameForkWiden")) CFG.frameForkWiden = (int)*v;
   if (auto v = o.getInteger("ptrWidenAfter")) CFG.ptrWidenAfter = (int)*v;
   if (auto v = o.getInteger("longLoop")) CFG.longLoop = (int)*v;
@@ -50,6 +51,7 @@ static void loadConfig(const json::Object &o) {
         if (auto v = eo.getInteger("ptr")) ef.ptr = (int)*v;
         if (auto v = eo.getInteger("len")) ef.len = (int)*v;
         if (auto v = eo.getInteger("size")) ef.size = *v;
+        if (auto v = eo.getInteger("off")) ef.off = *v;
         if (auto v = eo.getString("prov")) ef.prov = v->str();
         if (auto v = eo.getInteger("lo")) ef.retlo = *v;
         if (auto v = eo.getInteger("hi")) ef.rethi = *v;
@@ -125,6 +127,7 @@ static bool setupCell(const json::Object &cell, State &S, std::string &err) {
         if (ro.getBoolean("fieldmap").getValueOr(false)) R.fieldmap = 0;
         if (ro.getBoolean("heap").getValueOr(false)) R.kind = RK_HEAP;
         if (auto arv = ro.getInteger("align_root")) R.alignRoot = (int)*arv;
+        if (ro.getBoolean("uninit").getValueOr(false)) R.w().trackInit = true;
       }
     }
   Frame NF; NF.F = F; NF.bb = &F->getEntryBlock(); NF.it = NF.bb->begin();
@@ -227,7 +230,7 @@ int main(int argc, char **argv) {
       E.run(std::move(T));
       for (auto &D : E.done) {
         if (getenv("XAI_TRACE_DONE") && D.steps > 100000) errs() << "[done] steps=" << D.steps << " aborted=" << D.aborted << " msg=" << D.abortMsg << " dedup=" << D.dedup << " alarms=" << D.alarms.size() << "\n";
-        if (D.aborted && D.abortMsg == "infeasible") { if (D.dedup) ndedup++; if (D.alarms.empty()) continue; D.abortMsg = "pruned"; }
+        if (D.aborted && D.abortMsg == "infeasible") { if (D.dedup) { ndedup++; continue; } if (D.alarms.empty()) continue; D.abortMsg = "pruned"; }
         npaths++;
         std::string r = pathRecord(D, setTable, sets);
         if (!recs.count(r)) order.push_back(r);
